@@ -255,6 +255,18 @@ pub fn tagl() -> ZooLang {
     }
 }
 
+/// Language for the corpus-update checks: words and runs of '=', '-' and '|||' so that delimiter-looking lines are valid input.
+pub fn corpl() -> ZooLang {
+    let g = G::new("corpl")
+        .rule("source", rep(choice(vec![sym("word"), sym("eqs"), sym("dashes"), sym("bars"), sym("group")])))
+        .rule("group", seq(vec![s("("), rep(sym("word")), s(")")]))
+        .rule("word", pat("[a-z]+"))
+        .rule("eqs", pat("=+"))
+        .rule("dashes", pat("-+"))
+        .rule("bars", s("|||"));
+    ZooLang { name: "corpl", spec: spec(g, None), lexemes: vec!["a", "===", "---", "|||", "(", ")", " ", "\n"], seeds: vec!["a b", "(a b) c", "===", "a\n---\nb"], skippable: b" \t\r\n", has_scanner: false }
+}
+
 pub fn fixture(name: &'static str, lexemes: Vec<&'static str>, seeds: Vec<&'static str>) -> Result<ZooLang, String> {
     let spec = crate::lang::fixture_spec(name)?;
     let has_scanner = spec.scanner_c.is_some();
